@@ -1,3 +1,4 @@
 import TinyFlux.Audit.Tool
 import TinyFlux.Props.C09
+import TinyFlux.Props.C09State
 #audit TinyFlux.Props.C09
